@@ -1,4 +1,4 @@
 SPECIFICATION TSpec
-INVARIANTS EffectNeedsSecret PrivateNeedsPassword PasswordIsNoSecret
+INVARIANTS EffectNeedsSecret PrivateNeedsPassword PasswordIsNoSecret RefusedIsNot2xx
 POSTCONDITION Accept
 CHECK_DEADLOCK FALSE
